@@ -59,6 +59,8 @@ class EngineC11:
         res = RunResult()
         N = weighted(sw, [(2, 4), (3, 5), (4, 1)])
         shape = [sw.randint(1, 4) for _ in range(N)]
+        if sw.random() < 0.2:
+            shape = [sw.randint(2, 3)] * N  # cubical
         if int(np.prod(shape)) < 2:
             shape[0] = 2
         rank = weighted(sw, [(1, 2), (2, 4), (3, 2)])
@@ -118,8 +120,13 @@ class EngineC11:
                 opts["inexact"] = sw.choice([True, False])
             else:
                 opts["lbfgsMem"] = sw.choice([1, 2, 3, 5])
+        shared = factors is not None and len(set(shape)) == 1 and sw.random() < 0.5
+        if shared:
+            # a guess whose modes are all the same array object (legal for cubical data, built without copying)
+            factors = [factors[0]] * N
         res.init = {
             "shape": shape,
+            "shared_guess": shared,
             "x": enc(x),
             "sparse": sparse,
             "sparse_perm_seed": sw.randrange(1000),
@@ -189,6 +196,9 @@ class EngineC11:
             gf = [np.asarray(dec(f), dtype=float) for f in guess["factors"]]
 
             def make_guess():
+                if init.get("shared_guess"):
+                    a = gf[0].copy()
+                    return ttb.ktensor([a] * len(gf), gw.copy(), copy=False)
                 return ttb.ktensor([f.copy() for f in gf], gw.copy())
         else:
             gw, gf = None, None
@@ -243,7 +253,11 @@ class EngineC11:
         m = kfull(w, fs)
         mine = loglik(x, m)
         obj = float(info["obj"])
-        if not (obj == mine or abs(obj - mine) <= 1e-9 * (1.0 + abs(mine))):
+        if np.isfinite(obj) and np.isfinite(mine):
+            agree = abs(obj - mine) <= 1e-9 * (1.0 + abs(mine))
+        else:
+            agree = obj == mine  # -inf (model zero where a count is positive) must be reported as -inf
+        if not agree:
             return V("objective_equals_recomputed_loglikelihood", f"reported obj {obj!r}, recomputed {mine!r}")
         kkt = np.asarray(info["kktViolations"], dtype=float).reshape(-1)
         iters = out["clock"].n_reads - 2
